@@ -355,6 +355,7 @@ class LockSched(Scheduler):
 
 class C16Spec(c01.C01Spec):
     prop = PROP
+    guide_share = 0
     invariants = INVARIANTS
 
     def draw(self, rng, tier='quick'):
